@@ -228,6 +228,9 @@ type WithFolder struct {
 	TS   []Celsius
 }
 
+// MyStr is a named string type used as map key.
+type MyStr string
+
 type NamedSlice []int
 type NamedMap map[string]string
 
@@ -520,6 +523,28 @@ var Catalogue = []TypeEntry{
 			h.P = &i
 		}
 		return h
+	}),
+	mk("map[MyStr]Simple", true, func(c *simkit.Choices) map[MyStr]Simple {
+		m := genMap(c, genSimple)
+		if m == nil {
+			return nil
+		}
+		out := map[MyStr]Simple{}
+		for k, v := range m {
+			out[MyStr(k)] = v
+		}
+		return out
+	}),
+	mk("map[MyStr]string", true, func(c *simkit.Choices) map[MyStr]string {
+		m := genMap(c, genStr)
+		if m == nil {
+			return nil
+		}
+		out := map[MyStr]string{}
+		for k, v := range m {
+			out[MyStr(k)] = v
+		}
+		return out
 	}),
 	mk("OrderedKV", true, genOrderedKV),
 	mk("WithKV", true, func(c *simkit.Choices) WithKV {
